@@ -69,6 +69,16 @@ CLAIMED["C03"] = dict(
     note="Trusted: pump curve = numpy.polyval of the type's reg_par; over-determined junctions (ext grid + controlled junction) are not asserted; "
          "no clause at exactly zero flow through a pump/compressor (discontinuous lift).",
     ref="DESIGN.md 4/C03")
+CLAIMED["C04"] = dict(
+    technique="exhaustive enumeration of 2^k status-flag patterns on fixed topologies + Hypothesis-generated outage patterns, against a reference reachability model and a deleted-rest differential",
+    text="Exploration with exhaustive sub-spaces: all 2^k patterns of in_service / opened / control_active flags (branches, ju and pi valves, "
+         "flow controllers, heat consumers, junctions, feeders) on three fixed topologies are enumerated completely (k=8 quick, 10-12 thorough) "
+         "and generated nets with outage patterns are added; for each the NaN pattern of every result table (hydraulic and thermal columns) "
+         "is compared with an independent BFS reachability model, the results are compared with those of the recipe from which everything "
+         "unsupplied / out of service was deleted, and a net without supplied junction must raise PipeflowNotConverged.",
+    note="Trusted: the reachability model of vp/refmodel.py (closed junction-pipe valve = open pipe end; reached out-of-service junctions are "
+         "calculated; unsupplied junction t_k = ambient not asserted). Non-converged supplied nets are discards.",
+    ref="DESIGN.md 4/C04")
 NOT_YET = {}
 
 def main():
